@@ -280,26 +280,96 @@ fn shard_mod() -> Option<(usize, usize)> {
     })
 }
 
+/// `VERIF_ONLY=ord:shard`: run only shard `shard` of the `ord`-th exploration of this process
+/// (replay of a hang).
+fn only() -> Option<(usize, usize)> {
+    static M: std::sync::OnceLock<Option<(usize, usize)>> = std::sync::OnceLock::new();
+    *M.get_or_init(|| {
+        let v = std::env::var("VERIF_ONLY").ok()?;
+        let (a, b) = v.split_once(':')?;
+        Some((a.parse().ok()?, b.parse().ok()?))
+    })
+}
+
+/// seconds one shard may run before the watchdog declares the exploration hung
+pub fn hang_limit_s(tier: Tier) -> u64 {
+    std::env::var("VERIF_HANG_LIMIT_S").ok().and_then(|s| s.parse().ok()).unwrap_or(match tier {
+        Tier::Quick => 300,
+        Tier::Thorough => 3600,
+    })
+}
+
+pub fn hang_file(cfg: &RunCfg) -> String {
+    format!("{}/harness/target/hang-{}.json", cfg.verif_dir, cfg.prop)
+}
+
+static EXPLORATION_ORDINAL: AtomicUsize = AtomicUsize::new(0);
+
 pub fn explore<F>(cfg: &RunCfg, nshards: usize, f: F) -> Explored
 where
     F: Fn(usize, &mut Acc) + Sync,
 {
     let t0 = Instant::now();
+    let ord = EXPLORATION_ORDINAL.fetch_add(1, Ordering::Relaxed);
+    let only_shard: Option<usize> = match only() {
+        Some((o, sh)) if o == ord => Some(sh),
+        Some(_) => {
+            return Explored { acc: Acc::default(), shards_total: nshards, shards_done: nshards, capped: false, wall_s: 0.0 };
+        }
+        None => None,
+    };
     let next = AtomicUsize::new(0);
     let min_bad = AtomicUsize::new(usize::MAX);
     let done = AtomicUsize::new(0);
     let capped = AtomicU64::new(0);
     let merged = Mutex::new(Acc::default());
     let nthreads = cfg.threads.max(1).min(nshards.max(1));
+    // watchdog state: which shard each worker is in and since when (ms since t0, 0 = idle)
+    let slots: Vec<(AtomicUsize, AtomicU64)> = (0..nthreads).map(|_| (AtomicUsize::new(usize::MAX), AtomicU64::new(0))).collect();
+    let finished = AtomicUsize::new(0);
+    let limit = hang_limit_s(cfg.tier);
     std::thread::scope(|s| {
-        for _ in 0..nthreads {
-            s.spawn(|| {
+        // a shard that does not come back is a diff that never delivers its result: report it
+        // (exit code 3, picked up by the supervisor) instead of hanging for ever
+        s.spawn(|| loop {
+            std::thread::sleep(std::time::Duration::from_millis(250));
+            if finished.load(Ordering::Relaxed) >= nthreads {
+                break;
+            }
+            let now = t0.elapsed().as_millis() as u64;
+            for (sh, since) in slots.iter() {
+                let st = since.load(Ordering::Relaxed);
+                let shard = sh.load(Ordering::Relaxed);
+                if st != 0 && shard != usize::MAX && now.saturating_sub(st) > limit * 1000 {
+                    let body = json!({"exploration": ord, "shard": shard, "nshards": nshards, "limit_s": limit});
+                    let _ = std::fs::write(hang_file(cfg), body.to_string());
+                    eprintln!("watchdog: shard {} of exploration #{} has been running for more than {} s", shard, ord, limit);
+                    std::process::exit(3);
+                }
+            }
+        });
+        for w in 0..nthreads {
+            let slots = &slots;
+            let finished = &finished;
+            let next = &next;
+            let min_bad = &min_bad;
+            let done = &done;
+            let capped = &capped;
+            let merged = &merged;
+            let f = &f;
+            s.spawn(move || {
                 crate::instr::disarm_all();
                 let mut acc = Acc::default();
                 loop {
                     let i = next.fetch_add(1, Ordering::Relaxed);
                     if i >= nshards {
                         break;
+                    }
+                    if let Some(sh) = only_shard {
+                        if i != sh {
+                            done.fetch_add(1, Ordering::Relaxed);
+                            continue;
+                        }
                     }
                     if i > min_bad.load(Ordering::Relaxed) {
                         continue;
@@ -317,7 +387,10 @@ where
                     acc.cur_shard = i as u64;
                     acc.case_no = 0;
                     acc.stop_shard = false;
+                    slots[w].0.store(i, Ordering::Relaxed);
+                    slots[w].1.store((t0.elapsed().as_millis() as u64).max(1), Ordering::Relaxed);
                     f(i, &mut acc);
+                    slots[w].1.store(0, Ordering::Relaxed);
                     if acc.stop_shard {
                         min_bad.fetch_min(i, Ordering::Relaxed);
                     } else {
@@ -325,6 +398,7 @@ where
                     }
                 }
                 merged.lock().unwrap().merge(acc);
+                finished.fetch_add(1, Ordering::Relaxed);
             });
         }
     });
